@@ -307,11 +307,17 @@ Definition sign_consistent_around (st : state2) (v : N) : bool :=
 Definition vneigh (st : state2) (v : N) : list N :=
   dedup (flat_map (fun d => (if b st 1 d =? 0 then [] else [cid st PVertex (b st 1 d)]) ++
                             (if b st 0 d =? 0 then [] else [cid st PVertex (b st 0 d)])) (cell_of st PVertex v)).
+(* on a mesh with boundary the outside counts as one more vertex, neighbour of every boundary vertex: it is the
+   opposite corner of a boundary edge, and a common neighbour beyond the corners for an interior edge between
+   two boundary vertices (collapsing such an edge pinches the mesh or drops an ear together with its apex) *)
+Definition on_boundary (st : state2) (v : N) : bool :=
+  existsb (fun d => (b st 2 d =? 0) || (b st 2 (b st 0 d) =? 0)) (cell_of st PVertex v).
 Definition link_condition (st : state2) (l : N) : bool :=
   let r := b st 2 l in
   let v1 := cid st PVertex l in let v2 := cid st PVertex (b st 1 l) in
   let opp := cid st PVertex (b st 0 l) :: (if r =? 0 then [] else [cid st PVertex (b st 0 r)]) in
-  negb (v1 =? v2) && forallb (fun x => negb (mem_N x (vneigh st v2)) || mem_N x opp) (vneigh st v1).
+  negb (v1 =? v2) && forallb (fun x => negb (mem_N x (vneigh st v2)) || mem_N x opp) (vneigh st v1) &&
+  ((r =? 0) || negb (on_boundary st v1 && on_boundary st v2)).
 
 (** where the anchors send the surviving vertex, and the anchor it must carry: [None] when the map has no
     vertex anchors (midpoint, nothing to carry) *)
